@@ -121,8 +121,8 @@ PROPS = {
         props_v="Props/C03.v",
         corr_v=["Corr/CheckSpdx.v", "Corr/CheckCdx.v", "Corr/CheckXlate.v"],
         n_quick=60, n_thorough=1500,
-        explanation="Theorems (arbitrary documents, not only round-trippable ones). SPDX 2.3: packages and files are a permutation of the node identifiers (every node exactly once, whatever its purposes), the relationships are exactly one per typed edge target plus one DESCRIBES per root, and no relationship names an element that was not emitted when the graph is closed. CycloneDX: every node other than the root is a component exactly once (DAGs, cycles, several containers), the root is the metadata component; a component is nested only under a node that contains it; every dependency edge is in the dependency list and the list names only nodes of the document. Correspondence: both Serialize seams and both Unserialize seams on generated graphs and on documents parsed from the repository's SBOMs and their mutants; oracle: writer output decoded with encoding/json only (every node once, every expressible relationship, no dangling reference) and read back (identity attributes).",
-        assumptions=["modelled: Model/Spdx.v and Model/Cdx.v (see C01, C02)", "reading back is checked for the formats that have a registered reader (SPDX 2.3, CycloneDX 1.3-1.5); CycloneDX 1.0/1.1 output is refused by the encoder for every document", "identity attributes after reading back (name, version, hashes, purl, CPE) are decided by the oracle and the seams; exemptions: CycloneDX before 1.4 writes version 0.0.0 for none, a root without a name is written under the document's name"],
+        explanation="Theorems (arbitrary documents, not only round-trippable ones). SPDX 2.3: packages and files are a permutation of the node identifiers (every node exactly once, whatever its purposes), the relationships are exactly one per typed edge target plus one DESCRIBES per root, and no relationship names an element that was not emitted when the graph is closed. CycloneDX: every node other than the root is a component exactly once (DAGs, cycles, several containers), the root is the metadata component; a component is nested only under a node that contains it; every dependency edge is in the dependency list and the list names only nodes of the document. Reading back: identifier, name and version of every node (no class), hash maps and package identifiers over what each format spells. Correspondence: both Serialize seams and both Unserialize seams on generated graphs and on documents parsed from the repository's SBOMs and their mutants; oracle: writer output decoded with encoding/json only (every node once, every expressible relationship, no dangling reference) and read back (identity attributes).",
+        assumptions=["modelled: Model/Spdx.v and Model/Cdx.v (see C01, C02)", "reading back is checked for the formats that have a registered reader (SPDX 2.3, CycloneDX 1.3-1.5); CycloneDX 1.0/1.1 output is refused by the encoder for every document", "oracle exemptions for reading back: CycloneDX before 1.4 writes version 0.0.0 for none (third-party encoder), a root without a name is written under the document's name"],
     ),
     "C04": dict(
         props_v="Props/C04.v",
